@@ -20,7 +20,7 @@ Your task: make ONE realistic change to the library source (not to tests) in you
  (4) the breakage needs something specific to manifest — a particular input value, boundary, length, ordering or timing — not a blanket failure that any smoke test would see.
 Prefer the kind of mistake a maintainer could plausibly make in a refactor, optimisation or feature: an off-by-one at a boundary, a wrong constant, a dropped or weakened check, a swapped branch, state that is not reset, an early return, a wrong error code, a changed default. Keep the diff small (normally under 15 changed lines). {hint}
 
-Then write a demonstration: a small Rust integration test or example that lives outside the library's src (e.g. a new file under wtransport-proto/tests/ or wtransport/tests/ or examples) and that shows the right behaviour on the original code and the wrong behaviour with your change. Run it both ways (`git stash` / `git stash pop`, or apply/reverse the diff) and record the outputs.
+Then write a demonstration: a small Rust integration test or example that lives outside the library's src (e.g. a new file under wtransport-proto/tests/ or wtransport/tests/ or examples) and that shows the right behaviour on the original code and the wrong behaviour with your change. Run it both ways (save `git diff` to a private file, then `git apply -R <file>` / `git apply <file>`; do NOT use `git stash`: the stash is shared by every worktree of the repository and other people work in sibling worktrees) and record the outputs.
 
 Deliver into {out}/ (create it):
  - patch.diff — `git diff` of the library change ONLY (it must apply cleanly with `git apply` on the worktree's HEAD and must NOT include the demonstration file);
